@@ -41,15 +41,16 @@ Fixpoint by_pool_names (pools : list pool) (ns : list string) : option (list poo
 (* ------------------------------------------------------------------ which pools may be used at all *)
 
 (* "the highest-weight READY NodePool": Ready must be True - not False, not Unknown, not missing - and the pool
-   must be a dynamic one that is not being deleted *)
-Definition usable (n : npool) : Prop := np_ready n = RTrue /\ np_static n = false /\ np_deleting n = false.
+   must be a dynamic one of this provider that is not being deleted *)
+Definition usable (n : npool) : Prop :=
+  np_ready n = RTrue /\ np_static n = false /\ np_deleting n = false /\ np_managed n = true.
 
 (* the pod's new node comes from the pool named [name]: that name denotes a usable pool, and only usable pools *)
 Definition placed_ready (nps : list npool) (name : string) : Prop :=
   (exists n, List.In n nps /\ pname (np_pool n) = name) /\
   (forall n, List.In n nps -> pname (np_pool n) = name -> usable n).
 Definition usable_b (n : npool) : bool :=
-  match np_ready n with RTrue => true | _ => false end && negb (np_static n) && negb (np_deleting n).
+  match np_ready n with RTrue => true | _ => false end && negb (np_static n) && negb (np_deleting n) && np_managed n.
 Definition placed_ready_b (nps : list npool) (name : string) : bool :=
   existsb (fun n => String.eqb (pname (np_pool n)) name) nps &&
   forallb (fun n => negb (String.eqb (pname (np_pool n)) name) || usable_b n) nps.
